@@ -6,6 +6,13 @@ From C02 Require Import Model ModelTx CaseDefs ProofsNodes ProofsBorders ProofsI
 Import ListNotations.
 Open Scope N_scope.
 
+(* The search path is modelled over an ABSTRACT leaf matcher (Model.v: Class Matcher = a record holding one
+   function tok_match : pat -> tok -> bool, no law attached). Theorems that start with
+   `forall tok_match, let tm := Build_Matcher tok_match in` hold for EVERY such function; statements without it
+   (the executable verdicts, the examples) use the glob / range instance glob_matcher = Build_Matcher pat_match,
+   the one the correspondence run evaluates. *)
+#[local] Existing Instance glob_matcher.
+
 (* thm:C02_nodes_sound — every tree of merge nodes (AND, OR with dedup, NAND, NOT over the LID range) over
    strictly ascending posting lists, drained in either direction, terminates (the range node's fuel is
    adequate), yields a strictly `less`-monotone list, and that list holds exactly the values of the tree's
@@ -86,18 +93,20 @@ Print Assumptions C02_node_spec_complete.
    query inside [from,to], strictly ordered by (MID,RID) in the requested direction, cut to the first `limit`,
    and Total = number of matching DOCUMENTS when requested (0 otherwise). *)
 Theorem C02_search_exact :
+  forall (tok_match : pat -> tok -> bool), let tm := Build_Matcher tok_match in
   forall c from to q, Forall ok_doc c -> NoDup (map did c) -> N.of_nat (length c) + 1 < 4294967296 ->
   forall rev limit wt hist,
     search_model c q from to rev limit wt hist = Ok (search_spec c q from to rev limit wt).
-Proof. exact search_exact. Qed.
+Proof. exact (fun f => @search_exact (Build_Matcher f)). Qed.
 Print Assumptions C02_search_exact.
 
 (* histogram: for the same corpora, the buckets (mid - mid % interval) the fraction counts over its LID stream
    are the buckets of the matching DOCUMENTS, whatever the order of the stream. *)
 Theorem C02_hist_exact :
+  forall (tok_match : pat -> tok -> bool), let tm := Build_Matcher tok_match in
   forall c from to q, Forall ok_doc c -> NoDup (map did c) -> N.of_nat (length c) + 1 < 4294967296 ->
   forall rev hist, hist_prepared (prepare c) q from to rev hist = Ok (hist_spec c q from to hist).
-Proof. exact hist_exact. Qed.
+Proof. exact (fun f => @hist_exact (Build_Matcher f)). Qed.
 Print Assumptions C02_hist_exact.
 
 (* link to the correspondence run: a CSearch request answered exactly as the specification says passes both
@@ -116,9 +125,10 @@ Print Assumptions C02_search_case_ok.
    membership in every posting list, the answer and the total) depends only on the SET of its tokens — a
    repeated word must not be counted twice. *)
 Theorem C02_token_multiplicity :
+  forall (tok_match : pat -> tok -> bool), let tm := Build_Matcher tok_match in
   forall q m1 r1 m2 r2 ts1 ts2, (forall u, In u ts1 <-> In u ts2) ->
     sat q (Doc m1 r1 ts1) = sat q (Doc m2 r2 ts2).
-Proof. exact sat_set. Qed.
+Proof. exact (fun f => @sat_set (Build_Matcher f)). Qed.
 Print Assumptions C02_token_multiplicity.
 
 (* ================= the ACTIVE index by transcription (ModelTx.v) ================= *)
@@ -146,6 +156,7 @@ Print Assumptions C02_tx_sort_unique.
    set of the LIDs of the documents carrying the token — multiplicity collapsed — and for the all-token the LIDs
    1..n of all documents. *)
 Theorem C02_tx_postings :
+  forall (tok_match : pat -> tok -> bool), let tm := Build_Matcher tok_match in
   forall ops t, N.of_nat (length (docs_of ops)) + 1 < 4294967296 ->
   let st := run ops in
   let s := t_sorted (get_lids (a_mids st) (a_rids st) (a_tl st t)) in
@@ -154,7 +165,7 @@ Theorem C02_tx_postings :
   (forall l, In l s <-> 1 <= l /\ exists d, nth_error (docs_of ops) (N.to_nat (l - 1)) = Some d /\ has_tok t d = true) /\
   StronglySorted (kgt (a_mids st) (a_rids st)) a /\
   (forall l, In l a <-> 1 <= l /\ l <= N.of_nat (length (docs_of ops))).
-Proof. exact tx_postings. Qed.
+Proof. exact (fun f => @tx_postings (Build_Matcher f)). Qed.
 Print Assumptions C02_tx_postings.
 
 (* newInverser / Inverse: for a duplicate-free mapping whose values lie inside the array, Inverse(k) is defined
@@ -170,17 +181,19 @@ Print Assumptions C02_tx_inverser.
    getLIDsBorders on them, per-token GetLIDs + inverseLIDs with the minLID/maxLID clamp, OR-fold, merge nodes,
    iterateEvalTree) returns exactly the specification over the documents ingested so far. *)
 Theorem C02_search_exact_tx :
+  forall (tok_match : pat -> tok -> bool), let tm := Build_Matcher tok_match in
   forall ops q from to rev limit wt hist,
   Forall ok_doc (docs_of ops) -> NoDup (map did (docs_of ops)) -> N.of_nat (length (docs_of ops)) + 1 < 4294967296 ->
   search_model_tx ops q from to rev limit wt hist = Ok (search_spec (docs_of ops) q from to rev limit wt).
-Proof. exact search_model_tx_exact. Qed.
+Proof. exact (fun f => @search_model_tx_exact (Build_Matcher f)). Qed.
 Print Assumptions C02_search_exact_tx.
 
 Theorem C02_hist_exact_tx :
+  forall (tok_match : pat -> tok -> bool), let tm := Build_Matcher tok_match in
   forall ops q from to rev hist,
   Forall ok_doc (docs_of ops) -> NoDup (map did (docs_of ops)) -> N.of_nat (length (docs_of ops)) + 1 < 4294967296 ->
   hist_tx (run ops) q from to rev hist = Ok (hist_spec (docs_of ops) q from to hist).
-Proof. exact hist_tx_script. Qed.
+Proof. exact (fun f => @hist_tx_script (Build_Matcher f)). Qed.
 Print Assumptions C02_hist_exact_tx.
 
 (* non-vacuity: two bulks out of time order, a search in between (so the second bulk's queues merge into
